@@ -1,10 +1,17 @@
 package checks
 
 import (
+	"context"
 	"errors"
 	"fmt"
+	"github.com/bartossh/Computantis/src/cache"
+	"github.com/bartossh/Computantis/src/gossip"
+	"github.com/bartossh/Computantis/src/pipe"
+	"github.com/bartossh/Computantis/src/protobufcompiled"
+	"github.com/bartossh/Computantis/src/wallet"
 	"math/rand"
 	"sort"
+	"time"
 
 	"github.com/bartossh/Computantis/src/accountant"
 	"github.com/bartossh/Computantis/src/spice"
@@ -185,6 +192,25 @@ func c13Deliver(w *core.WorkerCtx, h *c13Hist, order []int, name string, opts c1
 		t.Closed = true
 		t.Book.VerifClose()
 	}()
+	if opts.viaGossip {
+		// the vertices reach the node the way they do in a network: through its gossip service (real gossiper over this
+		// node's ledger, no peers), which maps the wire vertex, hands it to the ledger and hides the ledger's error
+		fl, err1 := cache.NewFlash()
+		hc, err2 := cache.New(800, 256)
+		if err1 != nil || err2 != nil {
+			w.R.Inconc("cannot create the caches of the gossip service")
+			return nil
+		}
+		defer fl.Close()
+		defer hc.Close()
+		g := gossip.VerifNewGossiper("node-"+name, ledger.NoLog{}, time.Second, &t.Actor.W, wallet.NewVerifier(), t.Book, hc, fl, pipe.New(10, 10), nil)
+		srv := g.Server()
+		t.Offer = func(ctx context.Context, v *accountant.Vertex) error {
+			fl.RemoveAddress(string(v.Hash[:])) // duplicates are a separate option here, not the 20 s suppression window
+			_, err := srv.GossipVrx(ctx, &protobufcompiled.VrxMsgGossip{Vertex: gossip.VerifVertexToProtoVertex(v)})
+			return err
+		}
+	}
 	inV := map[ledger.H]bool{}
 	for i := range h.vs {
 		inV[h.vs[i].Hash] = true
@@ -214,6 +240,8 @@ func c13Deliver(w *core.WorkerCtx, h *c13Hist, order []int, name string, opts c1
 			if err == nil {
 				world.Violate("C13", "admitted-twice", fmt.Sprintf("vertex %s was already in the ledger and was admitted again", ledger.Hex(v.Hash)))
 			}
+		case opts.viaGossip:
+			// the gossip handler answers every refusal with the same error: only the final ledger is judged
 		case missing && !wasParked:
 			if !ledger.IsParked(err) {
 				// the retry ticker may have admitted a parent in the meantime: re-evaluate on the fresh snapshot
@@ -308,6 +336,7 @@ func c13Deliver(w *core.WorkerCtx, h *c13Hist, order []int, name string, opts c1
 type c13Opts struct {
 	companions, duplicates, retryBetween bool
 	drainEvery                           int
+	viaGossip                            bool
 }
 
 // c13LongLived: one node keeps receiving reversed stages of a long valid history; every stage stays within the bounds
@@ -422,7 +451,7 @@ func c13Worker(w *core.WorkerCtx) {
 			}
 		}
 		for oi, p := range orders {
-			opts := c13Opts{companions: oi%3 == 1, duplicates: oi%2 == 0, retryBetween: oi%4 == 3}
+			opts := c13Opts{companions: oi%3 == 1, duplicates: oi%2 == 0, retryBetween: oi%4 == 3, viaGossip: oi%5 == 2}
 			if exhaustive6 {
 				opts = c13Opts{}
 			}
@@ -506,7 +535,7 @@ func init() {
 	core.Register(&core.Check{
 		Spec: core.Spec{
 			Prop:        "C13",
-			Rule:        "Valid histories of 6-20 vertices (chains and diamonds from two lagging source nodes, several wallets, every spend covered in every branch) are delivered to fresh synced nodes in PRNG permutations (plus the fully reversed order; thorough: all 720 permutations of a 6-vertex history), with duplicates, retry steps in between and invalid companions (tampered, re-signed by a wrong key, self-sealed child of a not yet known vertex). Per delivery: unknown parent => reported as such and parked (or already admitted by the ticker), known parents => accepted; then the retry path is stepped until the buffer is empty: the final ledger (vertices, graph edges, index) must equal parents-first delivery, nothing admitted twice, no invalid companion in the ledger, buffer <= 500, an orphan whose parent never comes is dropped after a bounded number of retries. Non-trivial = every non-identity permutation; distinct by (size, parked count bucket, retry steps bucket, companions). One batch runs a long-lived node: a valid history of 84 vertices delivered in reversed stages of 21 (each stage within the bounds, more than 800 cumulative parkings over the node's life); it must end with the parents-first ledger.",
+			Rule:        "Valid histories of 6-20 vertices (chains and diamonds from two lagging source nodes, several wallets, every spend covered in every branch) are delivered to fresh synced nodes in PRNG permutations (plus the fully reversed order; thorough: all 720 permutations of a 6-vertex history), with duplicates, retry steps in between and invalid companions (tampered, re-signed by a wrong key, self-sealed child of a not yet known vertex). Per delivery: unknown parent => reported as such and parked (or already admitted by the ticker), known parents => accepted; then the retry path is stepped until the buffer is empty: the final ledger (vertices, graph edges, index) must equal parents-first delivery, nothing admitted twice, no invalid companion in the ledger, buffer <= 500, an orphan whose parent never comes is dropped after a bounded number of retries. Non-trivial = every non-identity permutation; distinct by (size, parked count bucket, retry steps bucket, companions). Every fifth order is delivered through a real gossip service on top of the node's ledger (GossipVrx with the wire form of the vertex) instead of a direct AddLeaf. One batch runs a long-lived node: a valid history of 84 vertices delivered in reversed stages of 21 (each stage within the bounds, more than 800 cumulative parkings over the node's life); it must end with the parents-first ledger.",
 			Assumptions: []string{"histories stay within the retry bound (<= 20 vertices), so every vertex is admitted for any permutation", ledgerAssume},
 			MinEvals:    300, MinNontriv: 8,
 		},
